@@ -6,6 +6,8 @@
   hue, elements (macro list order), alpha (`Gen.Soa.hueFirstAlphaLast`).  `α` is the component type; the driver runs
   the model at `α = Nat` (bit patterns), the theorems hold for every `α`.
   Reference: one `List (Row α k)` — a plain `Vec<Color>`.
+  `Alpha<Color<Vec<T>>, Vec<A>>` appears here flattened to `k + 1` columns; `SoaNested.lean` models the nesting itself and
+  `PaletteProofs/C18_SoaNested.lean` proves the two equal.
 
   `Vec`/slice semantics used by both sides (`resolve`: `slice::get(range)` gives `None`, `Vec::drain(range)` panics, on an
   inverted or out-of-range range or an inclusive end of `usize::MAX`) are parameters of the model, not verified (DESIGN §2.9-2).
@@ -57,10 +59,14 @@ inductive Step (α : Type) (k : Nat) where
   | next (w : Option (Row α k))       -- `next()`, then `.set(w)` on the yielded item if it is `Some` and `w` is given
   | nextBack (w : Option (Row α k))   -- `next_back()`, likewise
   | len                               -- `ExactSizeIterator::len`
+  | sizeHint                          -- `Iterator::size_hint`
+  | count                             -- `Iterator::count` (consumes the iterator: scripts have it last; here a query)
 
 inductive SObs (α : Type) (k : Nat) where
   | item (o : Option (Row α k))
   | len (n : Nat)
+  | hint (lo : Nat) (hi : Option Nat)
+  | count (n : Nat)
   deriving DecidableEq
 
 def firstLen {α : Type} {k : Nat} (c : Cols α k) : Nat := if h : 0 < k then (c[0]).length else 0
@@ -89,10 +95,19 @@ def Zip.nextBack {α : Type} {k : Nat} (z : Zip α k) (w : Option (Row α k)) : 
 /-- `len()` is the first column's (`hue` / first element; for `Alpha` the colour's) -/
 def Zip.len {α : Type} {k : Nat} (z : Zip α k) : Nat := firstLen z.rest
 
+/-- `size_hint()` is the first column's; the column iterators (`slice::Iter`, `slice::IterMut`, `vec::Drain`,
+    `vec::IntoIter`, `array::IntoIter`) report `(n, Some(n))` with `n` their remaining length (trusted, DESIGN §2.9-2) -/
+def Zip.sizeHint {α : Type} {k : Nat} (z : Zip α k) : Nat × Option Nat := (firstLen z.rest, some (firstLen z.rest))
+
+/-- `count()` is the first column's -/
+def Zip.count {α : Type} {k : Nat} (z : Zip α k) : Nat := firstLen z.rest
+
 def Zip.step {α : Type} {k : Nat} (z : Zip α k) : Step α k → Zip α k × SObs α k
   | .next w => let r := z.next w; (r.1, .item r.2)
   | .nextBack w => let r := z.nextBack w; (r.1, .item r.2)
   | .len => (z, .len z.len)
+  | .sizeHint => (z, .hint z.sizeHint.1 z.sizeHint.2)
+  | .count => (z, .count z.count)
 
 def Zip.run {α : Type} {k : Nat} (z : Zip α k) : List (Step α k) → Zip α k × List (SObs α k)
   | [] => (z, [])
@@ -106,6 +121,8 @@ def Step.readOnly {α : Type} {k : Nat} : Step α k → Step α k
   | .next _ => .next none
   | .nextBack _ => .nextBack none
   | .len => .len
+  | .sizeHint => .sizeHint
+  | .count => .count
 
 def runRead {α : Type} {k : Nat} (c : Cols α k) (script : List (Step α k)) : List (SObs α k) :=
   ((Zip.ofCols c).run (script.map Step.readOnly)).2
@@ -129,6 +146,7 @@ inductive Op (α : Type) (k : Nat) where
   | rev                                         -- `self.iter().rev().collect()`: `next_back` until `None`
   | intoIter                                    -- `self.clone().into_iter().collect()`: `next` until `None`
   | len                                         -- `self.iter().len()` and every column's own `len()`
+  | forgetDrain (r : Rng) (script : List (Step α k))   -- `let mut d = self.drain(r); script; mem::forget(d)`
 
 inductive Obs (α : Type) (k : Nat) where
   | unit
@@ -149,6 +167,12 @@ def emptyCols (α : Type) (k : Nat) : Cols α k := Vector.replicate k []
 /-- `Vec::drain(range)` on one column: `(what stays, what is removed)`, `none` = panic (nothing touched) -/
 def drainCol {α : Type} (r : Rng) (c : List α) : Option (List α × List α) :=
   (r.resolve c.length).map fun ab => (c.take ab.1 ++ c.drop ab.2, (c.take ab.2).drop ab.1)
+
+/-- `Vec::drain(range)` on one column when the `Drain` is leaked (`mem::forget`): `Vec::drain` sets the length to the
+    start of the range and only `Drain::drop` moves the tail back, so the range **and the tail** are lost
+    (std's documented "leak amplification"; nothing is duplicated): `(what stays, what the iterator can yield)` -/
+def forgetCol {α : Type} (r : Rng) (c : List α) : Option (List α × List α) :=
+  (r.resolve c.length).map fun ab => (c.take ab.1, (c.take ab.2).drop ab.1)
 
 /-- `slice::get(range)` on one column -/
 def sliceCol {α : Type} (r : Rng) (c : List α) : Option (List α) :=
@@ -201,6 +225,11 @@ def step {α : Type} {k : Nat} (s : Cols α k) : Op α k → Cols α k × Obs α
   | .rev => (s, .steps (runRead s (fullBack s)))
   | .intoIter => (s, .steps (runRead s (fullFwd s)))
   | .len => (s, .lens (firstLen s) (s.map List.length))
+  | .forgetDrain r script =>
+    -- a panic happens inside `self.drain(r)`, before the `forget`: the `Drain`s created so far are dropped as in `.drain`
+    match allSome (s.map (forgetCol r)) with
+    | some v => (v.map (·.1), .steps (runRead (v.map (·.2)) script))
+    | none => (drainPanicState s (s.map (drainCol r)), .panic)
 
 def run {α : Type} {k : Nat} (s : Cols α k) : List (Op α k) → Cols α k × List (Obs α k)
   | [] => (s, [])
@@ -227,6 +256,8 @@ def RZip.step {α : Type} {k : Nat} (z : RZip α k) : Step α k → RZip α k ×
   | .next w => let r := z.next w; (r.1, .item r.2)
   | .nextBack w => let r := z.nextBack w; (r.1, .item r.2)
   | .len => (z, .len z.rest.length)
+  | .sizeHint => (z, .hint z.rest.length (some z.rest.length))
+  | .count => (z, .count z.rest.length)
 
 def RZip.run {α : Type} {k : Nat} (z : RZip α k) : List (Step α k) → RZip α k × List (SObs α k)
   | [] => (z, [])
@@ -268,6 +299,10 @@ def stepRef {α : Type} {k : Nat} (rs : List (Row α k)) : Op α k → List (Row
   | .rev => (rs, .steps (runReadRef rs (List.replicate (rs.length + 1) (.nextBack none))))
   | .intoIter => (rs, .steps (runReadRef rs (List.replicate (rs.length + 1) (.next none))))
   | .len => (rs, .lens rs.length (Vector.replicate k rs.length))
+  | .forgetDrain r script =>
+    match r.resolve rs.length with
+    | some ab => (rs.take ab.1, .steps (runReadRef ((rs.take ab.2).drop ab.1) script))
+    | none => (rs, .panic)
 
 def runRef {α : Type} {k : Nat} (rs : List (Row α k)) : List (Op α k) → List (Row α k) × List (Obs α k)
   | [] => (rs, [])
